@@ -118,6 +118,28 @@ def case_sphere_int_center(ctx):
     ctx.require("circle(int centre, r=1.5):contains-iff-locus", ctx.iff(ctx.truth(C.contains(Point(y))), ctx.is_zero(eq2)))
 
 
+def case_int_weighted_centre(ctx):
+    """integer-typed representative of the centre with a weight other than 1 (non-integer Cartesian centre) and an integer radius"""
+    from geometer import Sphere, Circle, Point
+    from fractions import Fraction as F
+    h = (lambda a, b: F(a, b)) if ctx.symbolic else (lambda a, b: a / b)
+    S = Sphere(Point(np.array([1, 2, 3, 2])), 2)
+    x = vec(ctx, "x", 4)
+    xe = E(x)
+    cen = [h(1, 2), 1, h(3, 2)]
+    eq = sum((xe[i] - cen[i] * xe[3]) * (xe[i] - cen[i] * xe[3]) for i in range(3)) - 4 * xe[3] * xe[3]
+    ctx.require("sphere(int centre [1,2,3,2], r=2):contains-iff-locus", ctx.iff(ctx.truth(S.contains(Point(x))), ctx.is_zero(eq)))
+    S2 = Sphere(Point(np.array([-3, 1, 0, -2])), 1)
+    cen2 = [h(3, 2), h(-1, 2), 0]
+    eq = sum((xe[i] - cen2[i] * xe[3]) * (xe[i] - cen2[i] * xe[3]) for i in range(3)) - xe[3] * xe[3]
+    ctx.require("sphere(int centre [-3,1,0,-2], r=1):contains-iff-locus", ctx.iff(ctx.truth(S2.contains(Point(x))), ctx.is_zero(eq)))
+    C = Circle(Point(np.array([1, 3, 2])), 1)
+    y = vec(ctx, "y", 3)
+    ye = E(y)
+    eq2 = (ye[0] - h(1, 2) * ye[2]) * (ye[0] - h(1, 2) * ye[2]) + (ye[1] - h(3, 2) * ye[2]) * (ye[1] - h(3, 2) * ye[2]) - ye[2] * ye[2]
+    ctx.require("circle(int centre [1,3,2], r=1):contains-iff-locus", ctx.iff(ctx.truth(C.contains(Point(y))), ctx.is_zero(eq2)))
+
+
 def case_from_points(ctx):
     from geometer import Conic, Point
     pts = [vec(ctx, "a", 3), vec(ctx, "b", 3)]
@@ -195,6 +217,7 @@ def cases(tier, seed):
     add("ellipse", case_ellipse, tiers=Q, max_paths=2000)
     add("sphere", case_sphere, tiers=Q, max_paths=2000)
     add("int_centre_float_radius", case_sphere_int_center, tiers=Q)
+    add("int_weighted_centre_int_radius", case_int_weighted_centre, tiers=Q)
     add("from_points", case_from_points, tiers=Q, max_paths=3000)
     cs.append(Case("cone_cylinder_octants", custom_cone_cylinder, kind="custom"))
     return cs
